@@ -15,7 +15,7 @@ def Env.repaired (codes : List Int) : Env :=
 def Env.current (codes : List Int) : Env :=
   { errorCodes := codes,
     time := { tdExact := true, dtExact := true, dtMillis := true },
-    skipUnknownTags := false }
+    skipUnknownTags := true }
 
 /-- the record-batch code as it is now -/
 def RecCfg.current : RecCfg := RecCfg.repaired
